@@ -203,6 +203,41 @@ func c11(c *h.Ctx) {
 	r := c.R
 	zero := aacCfg{}
 
+	// 0a. one encoder, several frames of varying sizes, every frame RETAINED and concatenated afterwards (the
+	// property's "concatenation of frames"): a frame handed out must not be overwritten by a later Encode.
+	{
+		cfg := aacCfg{2, 4, 2}
+		a := newADTS(cfg)
+		var frames [][]byte
+		var snaps []string
+		var raws [][]byte
+		for i := 0; i < 24; i++ {
+			raw := r.Bytes(r.Pick(300, 1, 7, 50, 299, 2))
+			if b, err := a.Encode(raw); err == nil {
+				frames = append(frames, b)
+				snaps = append(snaps, h.Hex(b))
+				raws = append(raws, raw)
+			}
+		}
+		var stream []byte
+		for i, f := range frames {
+			c.Hold(h.Hex(f) == snaps[i], "encode.frame_not_aliased", fmt.Sprintf("retained frame #%d of %d raw=%dB", i, len(frames), len(raws[i])), h.Trunc(h.Hex(f), 60), h.Trunc(snaps[i], 60))
+			stream = append(stream, f...)
+		}
+		d := newADTS(aacCfg{})
+		okAll := true
+		for i := range frames {
+			raw, left, err := d.Decode(stream)
+			if err != nil || !bytes.Equal(raw, raws[i]) {
+				okAll = false
+				break
+			}
+			stream = left
+		}
+		c.Hold(okAll && len(stream) == 0, "adts_concat.retained", fmt.Sprintf("%d frames encoded by one encoder, kept, concatenated, decoded one at a time", len(frames)), fmt.Sprint(okAll), "every raw block back, nothing left")
+		c.Case("retained-frames", fmt.Sprint(len(frames)), true)
+	}
+
 	// Correspondence mismatches are collected and reported after the whole run, so that the harness's
 	// violation cap is filled by property violations (Hold) first when a change breaks both.
 	type mismatch struct{ clause, input, impl, model string }
